@@ -62,8 +62,8 @@ type Knob struct {
 	n     int
 }
 
-// HashFunc is a function that looks like a hash of at most 32 bits (name
-// contains "hash"/"sum"/"crc"/"fnv"/"digest", one result of type uint32/uint16/uint8,
+// HashFunc is a function that looks like a fixed-width hash (name contains
+// "hash"/"sum"/"crc"/"fnv"/"digest", one unsigned integer result of at most 64 bits,
 // at least one string or []byte parameter). A variant build can weaken it to
 // a few bits: code that is correct only as long as no two keys collide then
 // shows its dependence on the history after a handful of calls.
@@ -532,6 +532,10 @@ func instrumentFile(fset *token.FileSet, fc *fileCtx, rep *Report, info *types.I
 					funcName = recvName(x.Recv.List[0].Type) + "." + funcName
 				}
 				addSite("func", x.Body.Lbrace)
+				if x.Recv != nil {
+					ast.Inspect(x.Recv, visit)
+				}
+				ast.Inspect(x.Type, visit) // parameter and result types may name redirected types (time.Timer, ...)
 				ast.Inspect(x.Body, visit)
 				funcName = prev
 				return false
@@ -1174,7 +1178,7 @@ func collectHashFuncs(fset *token.FileSet, all []*fileCtx, rep *Report) {
 				continue
 			}
 			rt, ok := fd.Type.Results.List[0].Type.(*ast.Ident)
-			if !ok || (rt.Name != "uint32" && rt.Name != "uint16" && rt.Name != "uint8") {
+			if !ok || (rt.Name != "uint64" && rt.Name != "uint" && rt.Name != "uint32" && rt.Name != "uint16" && rt.Name != "uint8") {
 				continue
 			}
 			ln := strings.ToLower(fd.Name.Name)
